@@ -51,10 +51,21 @@ def _cond(emb, kind):
     return f"{'dyadic' if emb.dyadic else 'real'}/{kind}"
 
 
+_MESH_CACHE = {}
+
+
 def _mk(df, st, emb, flip=None):
+    """library mesh of a state; cached per process (meshes are never mutated by this check)"""
     m = st["mesh"]
     names = lat.names_for(m)
-    return L.build_mesh(df, m, st["subs"], emb, dims=names, flip=flip), names
+    key = (repr(m), repr(st["subs"]), emb.name, repr(flip))
+    hit = _MESH_CACHE.get(key)
+    if hit is None:
+        if len(_MESH_CACHE) > 64:
+            _MESH_CACHE.clear()
+        hit = L.build_mesh(df, m, st["subs"], emb, dims=names, flip=flip)
+        _MESH_CACHE[key] = hit
+    return hit, names
 
 
 def _construct(df, mesh, st, sp, kind, emb, names, off, variant, vdims=None):
@@ -108,7 +119,7 @@ def exec_state(df, st, emb, kind, part, variant=0):
                 bad = L.compare_array(kind, f.array, n, nv, obs["arr"], obs["extra"])
                 if bad:
                     clause = "C02_Shape" if bad["why"] == "shape" else ("C02_FirstListedWins" if sp["k"] == "dict" else "C02_CellwiseSpec")
-                    part.violation(f"{clause}/make/{cls}/{kind}",
+                    part.violation(f"{clause}/make/{cls}/{bad.get('sig', 'shape')}/{kind}",
                                    "the stored array differs from the specification evaluated at the cell centres", wit(diff=bad))
                 if off.pts:
                     part.violation(f"C02_CellwiseSpec/make/{cls}/centre-off-lattice/{_cond(emb, kind)}",
@@ -155,7 +166,7 @@ def exec_state(df, st, emb, kind, part, variant=0):
                     bad = L.compare_array(kind, f.array, n, nv, obs["arr"], obs["extra"])
                     if bad:
                         clause = "C02_Shape" if bad["why"] == "shape" else ("C02_FirstListedWins" if sp["k"] == "dict" else "C02_CellwiseSpec")
-                        part.violation(f"{clause}/{via}/{cls}/{kind}",
+                        part.violation(f"{clause}/{via}/{cls}/{bad.get('sig', 'shape')}/{kind}",
                                        "after an update the stored array differs from the new specification", wit(diff=bad, via=via))
                     if off.pts:
                         part.violation(f"C02_CellwiseSpec/{via}/{cls}/centre-off-lattice/{_cond(emb, kind)}",
@@ -299,7 +310,7 @@ def plan(states, embs, tier):
     dtype kinds rotating so that every (specification class, kind) pair is met many times"""
     work = []
     nk = len(L.KINDS)
-    per = 1 if tier == "quick" else 2
+    per = 1
     for si, st in enumerate(states):
         for ei in range(len(embs)):
             for r in range(per):
@@ -311,7 +322,7 @@ def plan(states, embs, tier):
 def _embs(tier, seed):
     if tier == "quick":
         return [embed.DYADIC[0], embed.DYADIC[1], embed.REAL[0], embed.REAL[2]]
-    return [embed.DYADIC[0], embed.DYADIC[1], embed.DYADIC[2], embed.REAL[0], embed.REAL[1], embed.REAL[2], embed.REAL[3]] + embed.seeded(seed, 1)
+    return [embed.DYADIC[0], embed.DYADIC[1], embed.DYADIC[2], embed.REAL[0], embed.REAL[1], embed.REAL[2]] + embed.seeded(seed, 1)
 
 
 # ------------------------------------------------------------------ channel T driver
@@ -441,6 +452,16 @@ def gen_trace(df, rnd, tid, embs):
         if emb.dyadic:
             raise
         return None
+    try:
+        return _drive(df, rnd, tr, mesh, m, S, n, nd, nv, kind, emb, names)
+    except core._tlc.MachineryError:
+        raise
+    except Exception as ex:  # a library call outside the guarded ones raised: an observation, not a harness failure
+        tr["ev"].append({"k": "raise", "exc": type(ex).__name__, "msg": str(ex)[:200]})
+        return tr
+
+
+def _drive(df, rnd, tr, mesh, m, S, n, nd, nv, kind, emb, names):
     cq = lat.cellq(m)
     coords = list(m["lo"]) + [m["lo"][d] + m["c"][d] * m["n"][d] for d in range(nd)]
     hi = coords[nd:]
@@ -614,8 +635,8 @@ def run(ctx):
         if len(states) != r.distinct:
             raise core._tlc.MachineryError(f"dump has {len(states)} states, TLC reports {r.distinct}")
         work = plan(states, embs, ctx.tier)
-        rnd = random.Random(ctx.seed)
-        rnd.shuffle(work)  # balance the chunks; the set of cases does not depend on the seed
+        # same mesh / subregions / embedding next to each other (mesh cache); many small chunks balance the pool
+        work.sort(key=lambda w: (repr(states[w[0]]["mesh"]), repr(states[w[0]]["subs"]), w[1]))
 
         def chunk(items):
             part = Part()
@@ -629,7 +650,7 @@ def run(ctx):
                              "embedding": embs[ei].name, "kind": kind})
             return part
 
-        ctx.pmap(chunk, work)
+        ctx.pmap(chunk, work, chunk=max(1, len(work) // 256))
     run_traces(ctx, df, 400 if ctx.tier == "quick" else 4000, embs)
     ctx.assumptions += [
         "TLC explores the bounded configuration space of spec/C02.tla completely (bounds in MC_C02.tla)",
